@@ -100,7 +100,7 @@ var tokenTables = [][]float64{
 	// tokens 0..7: valid as longitude and latitude; 8: valid longitude only; 9: valid as neither (same classes in every table).
 	// tokens 1..9 are increasing in every table, so that order-sensitive documents (perfect rectangles) keep their shape.
 	{0, 1, 2, 3, 4, 5, 6, 7, 95, 200},
-	{0, -89.99999999999999, -2.25, -0.000123, 1e-7, 1.5, 45.00000000000001, 89.99999999999999, 179.99999999999997, 12345678.875},
+	{0, -89.99999999999999, -2.25, -0.000123, 1e-7, 9.123456789012345, 45.00000000000001, 89.99999999999999, 179.99999999999997, 12345678.875},
 	{0, -1, math.Copysign(0, -1), 5e-324, 0.1, 0.2, 0.30000000000000004, 90, 123.456, 1.7976931348623157e308},
 }
 
